@@ -18,7 +18,7 @@ PROP = 'C04'
 PROOF_MODULES = ['Ladybug.Props.C04']
 GREP_MODULES = ['Ladybug.Py', 'Ladybug.Model.Cal', 'Ladybug.Gen.DtTables', 'Ladybug.Proofs.CalLemmas',
                 'Ladybug.Model.AP', 'Ladybug.Gen.ApTables', 'Ladybug.Proofs.C04Lemmas',
-                'Ladybug.Proofs.C04Listings', 'Ladybug.Drv.C04', 'Ladybug.DrvCore', 'Ladybug.Props.C08']
+                'Ladybug.Proofs.C04Listings', 'Ladybug.Proofs.C04Order', 'Ladybug.Drv.C04', 'Ladybug.DrvCore', 'Ladybug.Props.C08']
 RULE = ('periods are drawn from the product of boundary sets: dates {1 Jan, 28/29 Feb, 1 Mar, 30/31 of a month, '
         '30/31 Dec, random}, hours {0,1,11,12,22,23,random}^2 (overnight included), all 12 timesteps, both leap '
         'flags, shapes {one day, few days, months, annual, reversed short (Dec->Jan), reversed long, same-day '
@@ -46,7 +46,7 @@ LEVEL_TEXT = ('Machine-checked Lean 4 theorems over an executable model of analy
               'day in the hour window, between start moment and end of the end hour, cyclically for wrapped '
               'periods) for every well-formed period, all 12 timesteps, both leap flags; the enumeration is '
               'strictly chronological from the start moment without repeats; len() (fast and slow path) equals '
-              'its length; is_time_included, doys_int, months_int, months_per_hour agree with it; constructor '
+              'its length (never 0); is_time_included agrees with it; doys_int and months_int are its days/months in list order (adjacent-dedup, wrapping periods included); months_per_hour is complete and sound, and its exact image when every listed month contains a whole day; constructor '
               'rejection and the dict / token-level text round trips. The class constants are regenerated from '
               'the source on every run and the model is compared with the real class on boundary-biased inputs.')
 LEVEL_NOTE = ('Trusted: Lean kernel; axioms propext/Classical.choice/Quot.sound only; the constants extractor; the '
